@@ -1,38 +1,117 @@
 """C09 - the request body stream never over-reads, truncates or hangs (structural clauses).
 
-Branch structure is compared through canonical guard atoms and decision tables
-(wzsa/guards.py), so if/else flips, early returns, merged / split conditions,
-De Morgan rewrites and conditional expressions are all read the same way.
+Every rule is decided on *paths with a symbolic store* over a normalised copy of the function
+(wzsa/rules/_c09_helpers.py): helpers of the class / module and properties are expanded in place, conditional
+expressions are if/else, every condition and every value is expressed over the values at the start of the path and
+comparisons are canonical integer linear atoms.  A rule therefore asks "on every path that performs the operation, do
+the path conditions guarantee the bound / has the event happened", not "does the code look like this".
 """
 
 from __future__ import annotations
 
 import ast
+import itertools
 import re
+import typing as t
 
 from .. import astq
-from ..cfg import CFG, Node, cfg_of
-from ..dataflow import ReachingDefs
 from ..fold import Folder, RegexConst, classes_in
-from ..guards import atom, canon, decision_table, guard_set, has, simulate, test_keys
-from ..loader import AnalysisError, FuncInfo, dotted, norm, walk_no_nested
+from ..loader import AnalysisError, ClassInfo, FuncInfo, dotted, norm, walk_no_nested
 from ..report import Ctx
+from ._c09_helpers import Cond, Ev, Lin, NFunc, Path, Sym, canon_atom, ieval, implies_ge0, implies_le, lin, normalise, symname, truth_of, vername
 
 LEVEL_TEXT = (
-    "Static decision of structural clauses of C09 on /repo's current source: (R9.1) the underlying stream is touched only "
-    "inside LimitedStream.readinto, and the class overrides none of RawIOBase's derived readers; (R9.2) every underlying "
-    "read is bounded by limit - position and is dominated by the exhausted test; (R9.3) the position moves only by the "
-    "count the underlying call returned, which is also what readinto returns; (R9.4) every slice store into the caller's "
-    "buffer is length-exact; (R9.5) I/O errors, empty reads and exhaustion are routed to on_disconnect / on_exhausted, "
-    "whose decision tables are the documented ones (ClientDisconnected unless maximum-limited and error-free; "
-    "RequestEntityTooLarge iff maximum-limited); (R9.6) get_input_stream's decision table over its condition atoms is the "
-    "documented one (declared length above the maximum refused first; maximum-limited stream / raw stream / empty stream / "
-    "length-limited stream), and get_content_length is total (digits-only ASCII pattern, ValueError -> 0, chunked/absent -> "
-    "None); (R9.7) readall leaves its loop only on exhaustion or an empty read. It decides these clauses on all paths; "
-    "byte-exact prefix equality follows from them plus io.RawIOBase's contract and is not itself checked."
+    "Static decision of structural clauses of C09 on /repo's current source, on all paths of a normalised form of each "
+    "function (helpers and properties expanded, conditional expressions as branches, conditions as canonical integer "
+    "linear atoms over the values at the start of the path): (R9.1) the underlying stream is touched only inside "
+    "LimitedStream.readinto (and helpers used by it alone), and the class overrides none of RawIOBase's derived readers; "
+    "(R9.2) on every path to an underlying read the conditions guarantee limit - position >= 1 and the read is bounded by "
+    "limit - position; with nothing remaining on_exhausted() is called and the stream is not touched; (R9.3) on every "
+    "path the position moves exactly by the count the underlying call returned, which is also what readinto returns; "
+    "(R9.4) every slice store into the caller's buffer is length-exact; (R9.5) I/O errors, empty reads and exhaustion are "
+    "routed to on_disconnect / on_exhausted, whose decision tables are the documented ones (ClientDisconnected unless "
+    "maximum-limited and error-free; RequestEntityTooLarge iff maximum-limited); (R9.6) the outcome of every path of "
+    "get_input_stream agrees with the documented table over its five condition atoms (declared length above the maximum "
+    "refused first; maximum-limited stream / raw stream / empty stream / length-limited stream), and get_content_length "
+    "is total (digits-only ASCII pattern, ValueError -> 0, chunked/absent -> None, clamped at 0 - checked by evaluating "
+    "each path over sample integers); (R9.7) readall leaves its loop only on exhaustion or an empty read, never loops "
+    "on an empty read, and accumulates every non-empty read. Byte-exact prefix equality follows from these clauses plus "
+    "io.RawIOBase's contract and is not itself checked."
 )
 TRUSTED = ["CPython ast and re._parser", "io.RawIOBase routes read/readline/readlines/iteration through readinto/readall", "the underlying stream honours its own read(n)/readinto(b) contract"]
-ASSUMPTIONS = ["positive-size or unbounded reads (as the property states)"]
+ASSUMPTIONS = [
+    "positive-size or unbounded reads (as the property states)",
+    "compared quantities (lengths, positions, limits, counts) are ints, so a > b is a >= b + 1; an int-or-None value is falsy exactly when it is None or 0",
+    "expanding a helper of the same class / module in place preserves its meaning (no recursion deeper than three levels, no generator helpers)",
+    "a callable kept in an instance attribute does not modify the instance",
+]
+
+HOOKS = {"on_exhausted", "on_disconnect"}
+READERS = {"read", "readall", "readinto", "readline", "readlines", "__next__", "__iter__", "read1", "exhaust"}
+OS_FULL = {"OSError", "IOError", "EnvironmentError", "Exception", "BaseException"}
+OS_PART = {"BlockingIOError", "ConnectionError", "BrokenPipeError", "ConnectionAbortedError", "ConnectionRefusedError", "ConnectionResetError", "TimeoutError", "InterruptedError", "FileNotFoundError", "PermissionError"}
+
+
+class _Roles:
+    """the four attributes of LimitedStream, found by what __init__ stores in them (not by their names)."""
+
+    stream = "self._stream"
+    pos = "self._pos"
+    limit = "self.limit"
+    is_max = "self._limit_is_max"
+
+    @staticmethod
+    def attr(term: str) -> str:
+        return term.split(".", 1)[1]
+
+
+_R = _Roles()
+
+
+def _find_roles(repo, ls: ClassInfo) -> None:
+    init = ls.methods.get("__init__")
+    if init is None or len(init.params) < 4:
+        raise AnalysisError("LimitedStream.__init__(self, stream, limit, is_max) not found")
+    sn, p_stream, p_limit, p_max = init.params[:4]
+    paths = [p for p in Sym(normalise(repo, init, lambda h: False), repo=repo).paths() if p.outcome in ("return", "fall")]
+    if not paths:
+        raise AnalysisError("LimitedStream.__init__: no normal path")
+    found: dict[str, set[str]] = {"stream": set(), "limit": set(), "is_max": set(), "pos": set()}
+    for i, p in enumerate(paths):
+        cur: dict[str, set[str]] = {k: set() for k in found}
+        for key, v in p.env.items():
+            if not key.startswith(sn + "."):
+                continue
+            term = "self." + key.split(".", 1)[1]
+            if isinstance(v, ast.Name) and v.id == p_stream:
+                cur["stream"].add(term)
+            elif isinstance(v, ast.Name) and v.id == p_limit:
+                cur["limit"].add(term)
+            elif isinstance(v, ast.Name) and v.id == p_max:
+                cur["is_max"].add(term)
+            elif isinstance(v, ast.Constant) and v.value == 0 and not isinstance(v.value, bool):
+                cur["pos"].add(term)
+        for k in found:
+            found[k] = cur[k] if i == 0 else found[k] & cur[k]
+    if len(found["pos"]) > 1:
+        # several attributes start at 0: the position is the one that is written again outside __init__
+        rewritten = set()
+        for name, fi in ls.methods.items():
+            if name == "__init__":
+                continue
+            s2 = fi.params[0] if fi.params else "self"
+            for x in ast.walk(fi.node):
+                if isinstance(x, ast.Attribute) and isinstance(x.ctx, ast.Store) and isinstance(x.value, ast.Name) and x.value.id == s2:
+                    rewritten.add("self." + x.attr)
+        found["pos"] &= rewritten
+    for k, v in found.items():
+        if len(v) != 1:
+            raise AnalysisError(f"LimitedStream.__init__: the attribute holding the {k} is not unique ({sorted(v)})")
+    _R.stream, _R.limit, _R.is_max, _R.pos = (next(iter(found[k])) for k in ("stream", "limit", "is_max", "pos"))
+
+
+def _want_helper(h: FuncInfo) -> bool:
+    return h.name not in HOOKS | READERS and not (h.name.startswith("__") and h.name.endswith("__"))
 
 
 def _strip_cast(v: ast.AST | None) -> ast.AST | None:
@@ -41,16 +120,122 @@ def _strip_cast(v: ast.AST | None) -> ast.AST | None:
     return v
 
 
+_HANDLER_SCOPE: dict[str, t.Any] = {}
+
+
+def _handler_names(h: ast.ExceptHandler) -> list[str]:
+    """exception class names a handler catches; a name bound to a tuple constant at class / module level is looked through."""
+    if h.type is None:
+        return ["BaseException"]
+    out: list[str] = []
+
+    def add(e: ast.AST, depth: int = 0) -> None:
+        if isinstance(e, ast.Tuple):
+            for x in e.elts:
+                add(x, depth)
+            return
+        d = dotted(e) or "?"
+        last = d.rsplit(".", 1)[-1]
+        cls, module = _HANDLER_SCOPE.get("cls"), _HANDLER_SCOPE.get("module")
+        val = None
+        if depth < 2:
+            if cls is not None and isinstance(e, ast.Attribute) and isinstance(e.value, ast.Name) and last in cls.attrs:
+                val = cls.attrs[last]
+            elif module is not None and isinstance(e, ast.Name) and module.assigns.get(last):
+                val = module.assigns[last][-1]
+        if isinstance(val, ast.Tuple) or (val is not None and dotted(val)):
+            add(val, depth + 1)
+        else:
+            out.append(last)
+
+    add(h.type)
+    return out
+
+
+def _exc_hops(p: Path) -> list[tuple[ast.AST, ast.ExceptHandler]]:
+    """(raising node, handler) for every exceptional edge the path took."""
+    out = []
+    for k, v, n in p.conds:
+        if k.startswith("EXC@"):
+            i = next((j for j, s in enumerate(p.steps) if s is n), None)
+            if i is not None and i + 1 < len(p.steps) and isinstance(p.steps[i + 1].ast, ast.ExceptHandler):
+                out.append((n, p.steps[i + 1].ast))
+    return out
+
+
+def _self_calls(ev: Ev, name: str) -> bool:
+    """a call of self.<name>, directly or through a local / parameter that holds the bound method."""
+    if ev.kind != "call":
+        return False
+    f = ev.raw.func if isinstance(ev.raw, ast.Call) else None
+    if isinstance(f, ast.Attribute) and f.attr == name:
+        return True
+    g = ev.call.func if isinstance(ev.call, ast.Call) else None
+    return isinstance(g, ast.Attribute) and g.attr == name and isinstance(g.value, ast.Name) and g.value.id == "self"
+
+
+def _under_method(ev: Ev) -> str | None:
+    """method name when the event is a call on the underlying stream (self._stream.m(...) / getattr(self._stream, 'm')(...))."""
+    if ev.kind not in ("call", "attempt") or not isinstance(ev.call, ast.Call):
+        return None
+    f = ev.call.func
+    if isinstance(f, ast.Attribute) and norm(f.value) == _R.stream:
+        return f.attr
+    if isinstance(f, ast.Call) and dotted(f.func) == "getattr" and len(f.args) >= 2 and norm(f.args[0]) == _R.stream and isinstance(f.args[1], ast.Constant):
+        return str(f.args[1].value)
+    return None
+
+
+def _accounted(ls: ClassInfo, root: str, nf: NFunc) -> set[str]:
+    """the root method plus the helpers expanded into it that nothing else calls."""
+    acc = {root} | {h.name for h in nf.inlined if h.cls is ls}
+    changed = True
+    while changed:
+        changed = False
+        for h in sorted(acc - {root}):
+            for name, fi in ls.methods.items():
+                if name in acc:
+                    continue
+                sn = fi.params[0] if fi.params else "self"
+                if any(isinstance(x, ast.Attribute) and x.attr == h and isinstance(x.value, ast.Name) and x.value.id == sn for x in ast.walk(fi.node)):
+                    acc.discard(h)
+                    changed = True
+                    break
+    return acc
+
+
+def table_check(paths: list[Path], atoms: list[str], spec: t.Callable[[dict[str, bool]], str], outcome: t.Callable[[Path], str], label: t.Callable[[dict[str, bool]], str]) -> tuple[dict[str, list[str]], dict[str, int]]:
+    """every path, under every valuation of the atoms consistent with what the path decided, must end as spec says.
+    returns (mismatches by expected outcome, number of agreeing (path, valuation) pairs by expected outcome)."""
+    bad: dict[str, list[str]] = {}
+    good: dict[str, int] = {}
+    for p in paths:
+        fixed = {a: p.val(a) for a in atoms}
+        free = [a for a in atoms if fixed[a] is None]
+        got = outcome(p)
+        for bits in itertools.product((False, True), repeat=len(free)):
+            v = {a: fixed[a] for a in atoms if fixed[a] is not None}
+            v.update(dict(zip(free, bits)))
+            want = spec(v)  # type: ignore[arg-type]
+            if got == want:
+                good[want] = good.get(want, 0) + 1
+            else:
+                msg = f"[{label(v)}] -> {got}"  # type: ignore[arg-type]
+                if msg not in bad.setdefault(want, []):
+                    bad[want].append(msg)
+    return bad, good
+
+
 def run(ctx: Ctx) -> None:
     repo = ctx.repo
     for rid, text in {
-        "R9.1": "self._stream is used only inside LimitedStream.readinto (and assigned in __init__); read/readline/readlines/__next__/__iter__ are not overridden; readall/exhaust read only through self.read/self.readall",
-        "R9.2": "each underlying call reads at most remaining = limit - _pos bytes and happens only when remaining > 0",
-        "R9.3": "_pos is written only as 0 in __init__ and by += <count returned by the underlying call>; readinto returns that count",
+        "R9.1": "self._stream is used only inside LimitedStream.readinto and helpers of it alone (and assigned in __init__); read/readline/readlines/__next__/__iter__ are not overridden; readall/exhaust read only through the accounted readers",
+        "R9.2": "on every path, each underlying call reads at most remaining = limit - _pos bytes and happens only when remaining >= 1; with nothing remaining on_exhausted() is called instead",
+        "R9.3": "_pos is written only as 0 in __init__ and, on every path of readinto, moves by exactly the count the underlying call returned; readinto returns that count",
         "R9.4": "every slice store into the caller's buffer `b[:n] = src` has len(src) == n by construction",
-        "R9.5": "each underlying call sits in a try whose handler covers OSError and calls on_disconnect(error=...); an empty result calls on_disconnect(); exhaustion calls on_exhausted(); decision tables of the two hooks",
-        "R9.6": "decision table of get_input_stream over its condition atoms equals the documented one; get_content_length is total",
-        "R9.7": "readall leaves its read loop only when exhausted or after an empty read",
+        "R9.5": "an I/O error of an underlying call reaches a handler that calls on_disconnect(error=...) and leaves; an empty result calls on_disconnect(); decision tables of the two hooks",
+        "R9.6": "the outcome of every path of get_input_stream equals the documented table over its condition atoms; get_content_length is total",
+        "R9.7": "readall leaves its read loop only when exhausted or after an empty read, never repeats after an empty read, and accumulates every non-empty read",
     }.items():
         ctx.rule(rid, text)
 
@@ -59,194 +244,268 @@ def run(ctx: Ctx) -> None:
     if ri is None:
         raise AnalysisError("LimitedStream.readinto missing")
     ctx.saw(ri)
-    cfg = cfg_of(ri)
-    rd = ReachingDefs(cfg, ri.params)
+    _find_roles(repo, ls)
+    _HANDLER_SCOPE.update(cls=ls, module=ls.module)
+    if len(ri.params) < 2:
+        raise AnalysisError("LimitedStream.readinto: no buffer parameter")
     bufname = ri.params[1]
+    nf = normalise(repo, ri, _want_helper)
+    for h, why in nf.refused:
+        raise AnalysisError(f"readinto: helper {h.name} cannot be expanded ({why})")
+    accounted = _accounted(ls, "readinto", nf)
 
     # ---------------- R9.1 -------------------------------------------
-    users = [name for name, fi in ls.methods.items() if any(astq.is_self_attr(n, "_stream") for n in ast.walk(fi.node))]
-    ctx.ob("R9.1", "underlying stream used only by readinto", sorted(users) == ["__init__", "readinto"], f"methods touching self._stream: {sorted(users)}", ri, ri.node, "stream users")
+    users: dict[str, list[ast.Attribute]] = {}
+    for name, fi in ls.methods.items():
+        sn = fi.params[0] if fi.params else "self"
+        hits = [n for n in ast.walk(fi.node) if astq.is_self_attr(n, _R.attr(_R.stream), sn)]
+        if hits:
+            users[name] = hits
+    init_only_stores = all(isinstance(n.ctx, ast.Store) for n in users.get("__init__", []))
+    stray = sorted(set(users) - accounted - {"__init__"})
+    for nm in stray:
+        if ls.methods[nm].decorators and not any(d in ("property", "staticmethod", "classmethod") for d in ls.methods[nm].decorators):
+            raise AnalysisError(f"LimitedStream.{nm} touches the underlying stream behind the decorator {ls.methods[nm].decorators}: what the decorator does with its errors is not modelled")
+    ctx.ob("R9.1", "underlying stream used only by readinto", not stray and init_only_stores and "__init__" in users,
+           f"methods touching self._stream: {sorted(users)}; accounted (readinto and helpers only it uses): {sorted(accounted)}; __init__ only assigns it: {init_only_stores}", ri, ri.node, "stream users")
     over = [m for m in ("read", "readline", "readlines", "__next__", "__iter__", "read1") if m in ls.methods]
     ctx.ob("R9.1", "derived readers are RawIOBase's", not over, f"overridden: {over}", ls.fq, None, "no derived reader overridden")
     bases = [k.fq for k in repo.mro(ls)[1:]]
     ctx.ob("R9.1", "LimitedStream derives from io.RawIOBase", any(b.endswith("RawIOBase") for b in bases), f"bases {bases}", ls.fq, None, "RawIOBase base")
+    allowed_calls = READERS | HOOKS | {"tell", "readable", "close", "fileno"}
     for nm in ("readall", "exhaust"):
         fi = ls.methods.get(nm)
         if fi is None:
             raise AnalysisError(f"LimitedStream.{nm} missing")
         ctx.saw(fi)
-        calls = {c.func.attr for c in astq.calls(fi.node) if isinstance(c.func, ast.Attribute) and isinstance(c.func.value, ast.Name) and c.func.value.id == "self"}
-        ctx.ob("R9.1", f"{nm} reads only through read/readall", calls <= {"read", "readall", "on_exhausted"}, f"self-calls {sorted(calls)}", fi, fi.node, f"{nm} self calls")
+        nfx = normalise(repo, fi, _want_helper)
+        sn = nfx.selfname or "self"
+        def self_calls_of(nfy: NFunc, depth: int = 0) -> tuple[set[str], list[str]]:
+            sy = nfy.selfname or "self"
+            cs = {c.func.attr for c in astq.calls(nfy.node) if isinstance(c.func, ast.Attribute) and isinstance(c.func.value, ast.Name) and c.func.value.id == sy}
+            su = [norm(c) for c in astq.calls(nfy.node) if isinstance(c.func, ast.Attribute) and isinstance(c.func.value, ast.Call) and dotted(c.func.value.func) == "super"]
+            # a helper that could not be expanded (a generator): what it calls counts as called from here
+            for nm2 in sorted(cs - allowed_calls):
+                h = ls.methods.get(nm2)
+                if h is not None and depth < 2 and _want_helper(h):
+                    c2, s2 = self_calls_of(normalise(repo, h, _want_helper), depth + 1)
+                    cs = (cs - {nm2}) | c2
+                    su += s2
+            return cs, su
 
-    # ---------------- slots in readinto --------------------------------
-    local_names = {t_.id for s in walk_no_nested(ri.node) if isinstance(s, (ast.Assign, ast.AnnAssign)) for t_ in (s.targets if isinstance(s, ast.Assign) else [s.target]) if isinstance(t_, ast.Name)}
-    rem_names = [nm for nm in sorted(local_names) if any(v is not None and norm(v) == "self.limit - self._pos" for _, v in astq.assigns_to(ri.node, nm))]
-    if len(rem_names) != 1:
-        raise AnalysisError("readinto: `<name> = self.limit - self._pos` not found (slot)")
-    REM = rem_names[0]
-    size_names = [nm for nm in sorted(local_names) if astq.assigns_to(ri.node, nm) and all(v is not None and norm(v) == f"len({bufname})" for _, v in astq.assigns_to(ri.node, nm))]
-    SIZES = size_names + [f"len({bufname})"]
-    under = [c for c in astq.calls(ri.node) if isinstance(c.func, ast.Attribute) and astq.is_self_attr(c.func.value, "_stream")]
-    ctx.floor("R9.2", "underlying call sites", len(under), 2)
+        calls, supers = self_calls_of(nfx)
+        ctx.ob("R9.1", f"{nm} reads only through read/readall", calls <= allowed_calls and not supers, f"self-calls {sorted(calls)}; super calls {supers}", fi, fi.node, f"{nm} self calls")
 
-    def positive_remaining(g) -> bool:
-        return has(g, f"{REM} > 0") or has(g, f"{REM} >= 1") or has(g, f"{REM} < 1", False) or has(g, f"{REM} <= 0", False)
+    # ---------------- paths of readinto --------------------------------
+    sym = Sym(nf, repo=repo)
+    REM = Lin({_R.limit: 1, _R.pos: -1})
+    POS0 = Lin({_R.pos: 1})
 
-    def fits(g, extra=()) -> bool:
-        gg = set(g) | set(extra)
-        return any(has(gg, f"{s} <= {REM}") for s in SIZES)
+    def is_under_node(n) -> bool:
+        # which calls reach the underlying stream is decided on the substituted events; here: any call may raise
+        return n.ast is not None and n.kind in ("stmt", "test") and bool(astq.calls(n.ast))
 
-    def bool_name_atoms(name: str, node: Node) -> ast.AST | None:
-        defs = rd.reaching(node, name)
-        if len(defs) == 1:
-            d = next(iter(defs))
-            if d.kind == "assign" and d.index is None and isinstance(d.value, (ast.Compare, ast.UnaryOp, ast.BoolOp)):
-                return d.value
-        return None
+    paths = sym.paths(exc=is_under_node)
 
-    def expand_flags(g: set, node: Node) -> set:
-        """a guard on a local boolean whose single definition is a comparison implies that comparison."""
-        out = set(g)
-        for k, v in list(g):
-            if k.isidentifier():
-                sub = bool_name_atoms(k, node)
-                if sub is not None and not isinstance(sub, ast.BoolOp):
-                    kk, pp = canon(sub)
-                    out.add((kk, v == pp))
-        return out
+    def under_events(p: Path) -> list[Ev]:
+        return [e for e in p.events if e.kind == "call" and _under_method(e) is not None]
 
-    def bounded_buffer(e: ast.AST, node: Node, extra: frozenset = frozenset(), depth: int = 0) -> tuple[bool, str]:
-        g = expand_flags(guard_set(cfg, node), node)
-        if isinstance(e, ast.Call) and dotted(e.func) == "bytearray" and len(e.args) == 1 and norm(e.args[0]) == REM:
-            return True, f"bytearray({REM})"
-        if isinstance(e, ast.Name) and e.id == bufname:
-            ok = fits(g, extra)
-            return ok, f"caller's buffer under size <= {REM}: {ok}"
-        if isinstance(e, ast.IfExp):
-            t_: ast.AST = e.test
-            if isinstance(t_, ast.Name):
-                sub = bool_name_atoms(t_.id, node)
-                t_ = sub if sub is not None else t_
-            k, p = canon(t_)
-            a, wa = bounded_buffer(e.body, node, extra | {(k, p)}, depth + 1)
-            b, wb = bounded_buffer(e.orelse, node, extra | {(k, not p)}, depth + 1)
-            return a and b, f"({wa}) if {norm(e.test)} else ({wb})"
-        if isinstance(e, ast.Name) and depth < 4:
-            defs = rd.reaching(node, e.id)
-            if not defs:
-                return False, f"`{e.id}` undefined"
-            res = [bounded_buffer(d.value, node, extra, depth + 1) if d.value is not None and d.kind == "assign" and d.index is None else (False, d.kind) for d in defs]
-            return all(r[0] for r in res), f"`{e.id}` = " + " | ".join(r[1] for r in res)
-        return False, f"unrecognised buffer `{norm(e)}`"
+    normal: list[Path] = []
+    excp: list[tuple[Path, Ev, ast.ExceptHandler]] = []
+    for p in paths:
+        hops = _exc_hops(p)
+        if not hops:
+            normal.append(p)
+            continue
+        if len(hops) > 1:
+            continue
+        rn, h = hops[0]
+        for e in p.events:
+            if e.kind == "attempt" and e.node is rn and _under_method(e) is not None:
+                excp.append((p, e, h))
 
-    def bounded_size(e: ast.AST, node: Node, depth: int = 0) -> tuple[bool, str]:
-        if isinstance(e, ast.Call) and dotted(e.func) == "min" and any(norm(x) == REM for x in e.args):
-            return True, norm(e)
-        if norm(e) == REM:
-            return True, REM
-        if isinstance(e, ast.Name) and depth < 4:
-            defs = rd.reaching(node, e.id)
-            res = [bounded_size(d.value, d.node or node, depth + 1) if d.value is not None and d.kind == "assign" and d.index is None else (False, d.kind) for d in defs]
-            return bool(res) and all(r[0] for r in res), f"`{e.id}` = " + " | ".join(r[1] for r in res)
-        return False, f"size `{norm(e)}` not bounded by {REM}"
+    sites: dict[int, tuple[ast.AST, str]] = {}
+    site_facts: dict[int, list[tuple[bool, bool, str]]] = {}
 
-    # ---------------- R9.2 / R9.5 per underlying call -------------------
-    for c in under:
-        node = cfg.node_of(c)
-        kind = c.func.attr  # type: ignore[attr-defined]
-        g = guard_set(cfg, node)
-        dom = positive_remaining(g)
-        if kind == "readinto" and c.args:
-            bounded, why = bounded_buffer(c.args[0], node)
-        elif kind == "read" and c.args:
-            bounded, why = bounded_size(c.args[0], node)
+    def bounded_read_size(a: ast.AST | None, conds: set[Cond]) -> tuple[bool, str]:
+        if a is None:
+            return False, "no size argument"
+        if isinstance(a, ast.Call) and dotted(a.func) == "min" and not a.keywords:
+            for x in a.args:
+                if implies_le(conds, x, REM):
+                    return True, f"min(...) with `{norm(x)}` <= remaining"
+            return False, f"`{norm(a)}`: no operand is bounded by remaining"
+        if lin(a) is not None and implies_le(conds, a, REM):
+            return True, f"`{norm(a)}` <= remaining on this path"
+        return False, f"size `{norm(a)}` is not bounded by limit - _pos on this path"
+
+    def bounded_buffer_len(a: ast.AST | None, conds: set[Cond]) -> tuple[bool, str]:
+        a = _strip_cast(a)
+        if a is None:
+            return False, "no buffer argument"
+        if isinstance(a, ast.Call) and dotted(a.func) == "memoryview" and len(a.args) == 1:
+            return bounded_buffer_len(a.args[0], conds)
+        if isinstance(a, ast.Call) and dotted(a.func) == "bytearray" and len(a.args) == 1 and not a.keywords:
+            ok = implies_le(conds, a.args[0], REM)
+            if not ok and isinstance(a.args[0], ast.Call) and dotted(a.args[0].func) == "min":
+                ok = any(implies_le(conds, x, REM) for x in a.args[0].args)
+            return ok, f"fresh buffer of `{norm(a.args[0])}` bytes (<= remaining: {ok})"
+        if isinstance(a, ast.Subscript) and isinstance(a.slice, ast.Slice) and a.slice.step is None:
+            lo, hi = a.slice.lower, a.slice.upper
+            lo_l = lin(lo) if lo is not None else Lin()
+            if hi is not None and lo_l is not None and lin(hi) is not None:
+                width = lin(hi) - lo_l  # type: ignore[operator]
+                nonneg = hi is not None and not (isinstance(hi, ast.UnaryOp))
+                if nonneg and implies_ge0(conds, REM - width):
+                    return True, f"slice `{norm(a)}` of at most remaining bytes"
+                if isinstance(hi, ast.Call) and dotted(hi.func) == "min" and any(implies_le(conds, x, REM) for x in hi.args) and lo is None:
+                    return True, f"slice `{norm(a)}` of at most remaining bytes"
+            return bounded_buffer_len(a.value, conds)
+        if isinstance(a, ast.Name) and a.id == bufname:
+            ok = implies_le(conds, Lin({f"len({bufname})": 1}), REM)
+            return ok, f"caller's buffer under len({bufname}) <= remaining: {ok}"
+        return False, f"unrecognised buffer `{norm(a)}`"
+
+    for p in normal:
+        for e in under_events(p):
+            kind = _under_method(e)
+            conds = p.cset(e.ncond)
+            dom = implies_ge0(conds, REM.shift(-1))
+            args = e.call.args  # type: ignore[union-attr]
+            if kind in ("readinto", "readinto1"):
+                b_ok, why = bounded_buffer_len(args[0] if args else None, conds)
+            elif kind in ("read", "read1", "readline"):
+                b_ok, why = bounded_read_size(args[0] if args else None, conds)
+            else:
+                b_ok, why = False, f"unrecognised underlying call `{norm(e.call)}`"
+            sites.setdefault(id(e.raw), (e.raw, kind or "?"))
+            site_facts.setdefault(id(e.raw), []).append((b_ok, dom, why))
+    ctx.floor("R9.2", "underlying call sites", len(sites), 1)
+    for sid, (raw, kind) in sites.items():
+        facts = site_facts[sid]
+        bounded = all(f[0] for f in facts)
+        dom = all(f[1] for f in facts)
+        why = "; ".join(sorted({f[2] for f in facts}))
+        ctx.ob("R9.2", f"underlying {kind}() reads at most the remaining bytes", bounded and dom, f"`{norm(raw)}` on {len(facts)} path(s): {why}; only when limit - _pos >= 1: {dom}", ri, raw, f"bounded underlying {kind} {norm(raw)}")
+
+    # I/O errors
+    by_site: dict[int, list[tuple[Path, ast.ExceptHandler]]] = {}
+    for p, e, h in excp:
+        by_site.setdefault(id(e.raw), []).append((p, h))
+    for sid, (raw, kind) in sites.items():
+        hops = by_site.get(sid, [])
+        full = [(p, h) for p, h in hops if set(_handler_names(h)) & OS_FULL]
+        relevant = [(p, h) for p, h in hops if set(_handler_names(h)) & (OS_FULL | OS_PART)]
+        if not full:
+            cur_ = raw
+            while cur_ is not None and not isinstance(cur_, (ast.With, ast.AsyncWith, ast.FunctionDef)):
+                cur_ = astq.parent(cur_)
+            if isinstance(cur_, (ast.With, ast.AsyncWith)):
+                raise AnalysisError(f"readinto: `{norm(raw)}` runs inside `with {norm(cur_.items[0].context_expr)}`: whether that context manager handles the I/O error is not modelled")
+            ok5, fact5 = False, f"no handler covering OSError around the call (handlers reached: {sorted({tuple(_handler_names(h)) for _, h in hops})})"
         else:
-            bounded, why = False, f"unrecognised underlying call `{norm(c)}`"
-        ctx.ob("R9.2", f"underlying {kind}() reads at most the remaining bytes", bounded and dom, f"`{norm(c)}`: {why}; only when {REM} > 0: {dom}", ri, c, f"bounded underlying {kind} {norm(c)}")
-        tr = astq.enclosing(c, (ast.Try,))
-        ok5 = False
-        fact5 = "not inside a try"
-        while isinstance(tr, ast.Try) and not ok5:
-            if any(c is x for s in tr.body for x in ast.walk(s)):
-                for h in tr.handlers:
-                    names = ["BaseException"] if h.type is None else [dotted(e) or "" for e in (h.type.elts if isinstance(h.type, ast.Tuple) else [h.type])]
-                    covers = any(nm.rsplit(".", 1)[-1] in ("OSError", "Exception", "BaseException", "IOError", "EnvironmentError") for nm in names)
-                    calls_dc = any(isinstance(cc.func, ast.Attribute) and cc.func.attr == "on_disconnect" and (any(kw.arg == "error" for kw in cc.keywords) or len(cc.args) == 1) for cc in astq.calls(h))
-                    ends = any(isinstance(s, (ast.Return, ast.Raise)) for s in h.body)
-                    fact5 = f"handler {names}: covers OSError={covers}, calls on_disconnect(error=)={calls_dc}, leaves={ends}"
-                    if covers and calls_dc and ends:
-                        ok5 = True
-            tr = astq.enclosing(tr, (ast.Try,))
-        ctx.ob("R9.5", f"underlying {kind}() I/O errors routed to on_disconnect", ok5, f"`{norm(c)}`: {fact5}", ri, c, f"error routing underlying {kind} {norm(c)}")
-    # with nothing remaining: on_exhausted() is called and the underlying stream is not touched
-    k_exh = atom(f"{REM} <= 0")
-    outs = simulate(cfg, lambda k: (k_exh[1] if k == k_exh[0] else None))
-    exh_ok = bool(outs) and all(any(_calls(n, "on_exhausted") for n in o.passed) and not any(_touches_under(n) for n in o.passed) for o in outs)
-    ctx.ob("R9.2", "with nothing remaining, on_exhausted() is called and the underlying stream is not touched", exh_ok, f"paths under `{REM} <= 0`: {len(outs)}", ri, ri.node, "exhausted branch")
+            bad5 = []
+            for p, h in relevant:
+                i = next(j for j, s in enumerate(p.steps) if s.ast is h)
+                after = [e for e in p.events if e.node in p.steps[i:]]
+                dc = [e for e in after if _self_calls(e, "on_disconnect") and (any(kw.arg == "error" for kw in e.call.keywords) or len(e.call.args) == 1)]  # type: ignore[union-attr]
+                more = [e for e in after if _under_method(e) is not None]
+                moved = lin(p.env.get(_R.pos, ast.parse(_R.pos, mode="eval").body))
+                still = moved is not None and (moved - POS0).is_const() and (moved - POS0).const == 0
+                leaves = p.outcome in ("return", "raise")
+                if not (dc and not more and still and leaves):
+                    bad5.append(f"handler {_handler_names(h)}: on_disconnect(error=...) called: {bool(dc)}, further underlying reads: {len(more)}, position unchanged: {still}, leaves: {leaves}")
+            ok5 = not bad5
+            fact5 = "; ".join(sorted(set(bad5))) or f"every handler path of {sorted({tuple(_handler_names(h)) for _, h in relevant})} calls on_disconnect(error=...), leaves and does not move the position"
+        ctx.ob("R9.5", f"underlying {kind}() I/O errors routed to on_disconnect", ok5, f"`{norm(raw)}`: {fact5}", ri, raw, f"error routing underlying {kind} {norm(raw)}")
+
+    # exhaustion
+    bad_exh = []
+    n_exh = 0
+    for p in normal:
+        if under_events(p) or p.outcome not in ("return", "fall"):
+            continue
+        conds = p.cset()
+        exhausted = implies_ge0(conds, REM.scale(-1))
+        called = any(_self_calls(e, "on_exhausted") for e in p.events)
+        n_exh += 1
+        if not (exhausted and called):
+            bad_exh.append(p.describe() + f" (limit - _pos <= 0 known: {exhausted}; on_exhausted() called: {called})")
+    touched_when_exh = [p for p in normal if under_events(p) and implies_ge0(p.cset(), REM.scale(-1))]
+    ctx.ob("R9.2", "with nothing remaining, on_exhausted() is called and the underlying stream is not touched", n_exh >= 1 and not bad_exh and not touched_when_exh,
+           f"paths that return without an underlying call: {n_exh}; " + ("; ".join(bad_exh[:3]) or "each knows limit - _pos <= 0 and calls on_exhausted()"), ri, ri.node, "exhausted branch")
 
     # ---------------- R9.3 -------------------------------------------
-    pos_writes = []
+    writers: dict[str, list[ast.AST]] = {}
     for name, fi in ls.methods.items():
+        sn = fi.params[0] if fi.params else "self"
         for n in walk_no_nested(fi.node):
             if isinstance(n, (ast.Assign, ast.AugAssign, ast.AnnAssign)):
                 tg = n.targets if isinstance(n, ast.Assign) else [n.target]
-                if any(astq.is_self_attr(t_, "_pos") for t_ in tg):
-                    pos_writes.append((name, fi, n))
-    ok_init = [w for w in pos_writes if w[0] == "__init__" and isinstance(w[2], ast.Assign) and norm(w[2].value) == "0"]
-    incs = [w for w in pos_writes if w[0] == "readinto" and isinstance(w[2], ast.AugAssign) and isinstance(w[2].op, ast.Add)]
-    ctx.ob("R9.3", "_pos written only by __init__ (0) and one += in readinto", len(ok_init) == 1 and len(incs) == 1 and len(pos_writes) == 2, f"writes: {[(w[0], norm(w[2])) for w in pos_writes]}", ri, ri.node, "_pos writers")
-    if incs:
-        inc = incs[0][2]
-        inc_node = cfg.node_of(inc)
-        cnt = inc.value
+                flat = [y for x in tg for y in (x.elts if isinstance(x, (ast.Tuple, ast.List)) else [x])]
+                if any(astq.is_self_attr(t_, _R.attr(_R.pos), sn) for t_ in flat):
+                    writers.setdefault(name, []).append(n)
+    init_ok = bool(writers.get("__init__"))  # that every path of __init__ leaves 0 there is how the attribute was identified
+    stray_w = sorted(set(writers) - accounted - {"__init__"})
+    ctx.ob("R9.3", "_pos written only by __init__ (0) and inside readinto", init_ok and not stray_w and bool(set(writers) & accounted),
+           f"writes: {[(k, norm(w)) for k, ws in sorted(writers.items()) for w in ws]}; accounted methods: {sorted(accounted)}", ri, ri.node, "_pos writers")
 
-        def from_underlying(e: ast.AST, node: Node, depth: int = 0) -> bool:
-            if isinstance(e, ast.Call) and isinstance(e.func, ast.Attribute) and astq.is_self_attr(e.func.value, "_stream") and e.func.attr == "readinto":
-                return True
-            if isinstance(e, ast.Call) and dotted(e.func) == "len" and e.args and isinstance(e.args[0], ast.Name) and depth < 4:
-                ddefs = rd.reaching(node, e.args[0].id)
-                return bool(ddefs) and all(dd.value is not None and isinstance(dd.value, ast.Call) and isinstance(dd.value.func, ast.Attribute) and astq.is_self_attr(dd.value.func.value, "_stream") and dd.value.func.attr == "read" for dd in ddefs)
-            if isinstance(e, ast.Name) and depth < 4:
-                defs = rd.reaching(node, e.id)
-                return bool(defs) and all(d.value is not None and d.index is None and from_underlying(d.value, d.node or node, depth + 1) for d in defs)
-            return False
-
-        ctx.ob("R9.3", "_pos advances by the count the underlying call returned", from_underlying(cnt, inc_node), f"increment `{norm(inc)}`", ri, inc, "_pos increment source")
-        rets = astq.returns_of(ri.node)
-        after = [r for r in rets if cfg.node_of(r) is not None and cfg.node_dominates(inc_node, cfg.node_of(r))]
-        others = [r for r in rets if r not in after]
-        ok_ret = len(after) >= 1 and all(norm(r.value) == norm(cnt) for r in after) and all(norm(r.value) == "0" for r in others)
-        ctx.ob("R9.3", "readinto returns the count it accounted for (0 otherwise)", ok_ret, f"after increment: {[norm(r.value) for r in after]}; other returns: {sorted({norm(r.value) for r in others})}", ri, ri.node, "readinto returns")
-        g_inc = guard_set(cfg, inc_node)
-        truthy = has(g_inc, norm(cnt)) or has(g_inc, f"{norm(cnt)} > 0") or has(g_inc, f"{norm(cnt)} == 0", False)
-        kc = canon(cnt)[0]
-        outs0 = simulate(cfg, lambda k: (False if k == kc else (not k_exh[1]) if k == k_exh[0] else None))
-        zero_ok = bool(outs0) and all(any(_calls(n, "on_disconnect") for n in o.passed) for o in outs0 if any(_touches_under(n) for n in o.passed))
-        ctx.ob("R9.5", "an empty read calls on_disconnect() and does not advance", truthy and zero_ok, f"increment only with a truthy count: {truthy}; every path with a falsy count after an underlying call passes on_disconnect(): {zero_ok}", ri, inc, "empty read routing")
+    bad_move, bad_ret, bad_empty = [], [], []
+    n_moved = 0
+    for p in normal:
+        if p.outcome not in ("return", "fall"):
+            continue
+        ue = under_events(p)
+        cur = lin(p.env[_R.pos]) if _R.pos in p.env else POS0
+        delta = (cur - POS0) if cur is not None else None
+        counts: list[Lin] = []
+        for e in ue:
+            kind = _under_method(e)
+            counts.append(Lin({symname(e.k): 1}) if kind in ("readinto", "readinto1") else Lin({f"len({symname(e.k)})": 1}))
+        ret = lin(p.value) if p.value is not None else None
+        zero = delta is not None and delta.is_const() and delta.const == 0
+        if delta is None or not (zero or (len(counts) == 1 and delta.key() == counts[0].key())):
+            bad_move.append(f"{p.describe()}: position moves by `{delta.key() if delta is not None else norm(p.env.get(_R.pos))}`, underlying counts {[c.key() for c in counts]}")
+        if not zero:
+            n_moved += 1
+        if ret is None or delta is None or ret.key() != delta.key():
+            bad_ret.append(f"{p.describe()}: returns `{norm(p.value) if p.value is not None else None}` but the position moved by `{delta.key() if delta is not None else '?'}`")
+        if ue and len(counts) == 1:
+            # truth of the count: key of the symbol itself (readinto) or of the data (read: len(data))
+            e = ue[0]
+            ckey = symname(e.k)
+            tv = truth_of(dict(p.cset()), ckey)
+            pos_known = implies_ge0(p.cset(), counts[0].shift(-1))
+            after = p.events[p.events.index(e) + 1:]
+            dc = any(_self_calls(x, "on_disconnect") for x in after)
+            if not zero and not (tv is True or pos_known):
+                bad_empty.append(f"{p.describe()}: position advanced without knowing the count is non-zero")
+            if (tv is False) and not (dc and zero):
+                bad_empty.append(f"{p.describe()}: empty read: on_disconnect() called: {dc}, position unchanged: {zero}")
+    empties = [p for p in normal if under_events(p) and truth_of(dict(p.cset()), symname(under_events(p)[0].k)) is False]
+    ctx.ob("R9.3", "_pos advances by the count the underlying call returned", not bad_move and n_moved >= 1, "; ".join(bad_move[:3]) or f"{n_moved} advancing path(s), each by exactly the underlying count; all others leave it unchanged", ri, ri.node, "_pos increment source")
+    ctx.ob("R9.3", "readinto returns the count it accounted for (0 otherwise)", not bad_ret, "; ".join(bad_ret[:3]) or f"on all {len(normal)} paths the return value equals the movement of _pos", ri, ri.node, "readinto returns")
+    ctx.ob("R9.5", "an empty read calls on_disconnect() and does not advance", not bad_empty and bool(empties), "; ".join(bad_empty[:3]) or f"{len(empties)} empty-read path(s), each calls on_disconnect() and returns without advancing; advancing paths know the count is non-zero", ri, ri.node, "empty read routing")
 
     # ---------------- R9.4 -------------------------------------------
-    n94 = 0
-    for st in walk_no_nested(ri.node):
-        if isinstance(st, ast.Assign) and isinstance(st.targets[0], ast.Subscript) and astq.is_name(st.targets[0].value, bufname) and isinstance(st.targets[0].slice, ast.Slice):
-            sl = st.targets[0].slice
-            n94 += 1
-            ok = False
-            fact = norm(st)
-            if sl.lower is None and sl.step is None and sl.upper is not None:
-                nexpr = sl.upper
-                src = st.value
-                if isinstance(src, ast.Subscript) and isinstance(src.slice, ast.Slice) and src.slice.lower is None and src.slice.upper is not None and norm(src.slice.upper) == norm(nexpr):
-                    ok = True
-                    fact += " (source sliced to the same length)"
-                elif isinstance(nexpr, ast.Name) and isinstance(src, ast.Name):
-                    node = cfg.node_of(st)
-                    defs = rd.reaching(node, nexpr.id)
-                    ok = bool(defs) and all(d.value is not None and norm(d.value) == f"len({src.id})" for d in defs)
-                    fact += f" ({nexpr.id} defined as {[norm(d.value) for d in defs if d.value is not None]})"
-                elif isinstance(nexpr, ast.Call) and dotted(nexpr.func) == "len" and norm(nexpr.args[0]) == norm(src):
-                    ok = True
-            ctx.ob("R9.4", "slice store into the caller's buffer is length-exact", ok, fact, ri, st, f"buffer store {norm(st)}")
-    ctx.floor("R9.4", "buffer slice stores", n94, 1)
+    stores: dict[int, tuple[ast.AST, list[tuple[bool, str]]]] = {}
+    for p in normal:
+        for e in p.events:
+            if e.kind != "store" or not isinstance(e.call, ast.Assign):
+                continue
+            tg = e.call.targets[0]
+            if not isinstance(tg, ast.Subscript):
+                continue
+            base = tg.value
+            while isinstance(base, ast.Call) and dotted(base.func) == "memoryview" and len(base.args) == 1:
+                base = base.args[0]
+            if not (isinstance(base, ast.Name) and base.id == bufname):
+                continue
+            ok, fact = _length_exact(tg, e.call.value)
+            stores.setdefault(id(e.raw), (e.raw, []))[1].append((ok, fact))
+    for sid, (raw, facts) in stores.items():
+        ctx.ob("R9.4", "slice store into the caller's buffer is length-exact", all(f[0] for f in facts), f"{norm(raw)}: " + "; ".join(sorted({f[1] for f in facts})), ri, raw, f"buffer store {norm(raw)}")
+    ctx.floor("R9.4", "buffer slice stores", len(stores), 1)
 
     # ---------------- R9.5 hooks: decision tables ---------------------------
     oe = ls.methods.get("on_exhausted")
@@ -254,57 +513,175 @@ def run(ctx: Ctx) -> None:
     if oe is None or od is None:
         raise AnalysisError("on_exhausted / on_disconnect missing")
     ctx.saw(oe, od)
-    MAX = atom("self._limit_is_max")[0]
-    ERRN = atom("error is None")[0]
-    bad = []
-    for v, outs_ in decision_table(cfg_of(oe), [MAX]):
-        got = {(o.kind == "raise" and _raised(o) == "RequestEntityTooLarge") for o in outs_}
-        if got != {v[MAX]}:
-            bad.append(f"is_max={v[MAX]} -> {sorted(_desc(o) for o in outs_)}")
-    ctx.ob("R9.5", "on_exhausted raises RequestEntityTooLarge iff the limit is a maximum", not bad, "; ".join(bad) or "decision table over {self._limit_is_max} matches", oe, oe.node, "on_exhausted")
-    bad = []
-    extra = [k for k in test_keys(cfg_of(od)) if k not in (MAX, ERRN)]
-    for v, outs_ in decision_table(cfg_of(od), [MAX, ERRN]):
-        want = not (v[MAX] and v[ERRN])
-        got = {(o.kind == "raise" and _raised(o) == "ClientDisconnected") for o in outs_}
-        if got != {want}:
-            bad.append(f"is_max={v[MAX]}, error is None={v[ERRN]} -> {sorted(_desc(o) for o in outs_)}")
-    ctx.ob("R9.5", "on_disconnect raises ClientDisconnected unless (limit is a maximum and no error)", not bad and not extra, "; ".join(bad) or f"decision table over {{is_max, error is None}} matches; other atoms: {extra}", od, od.node, "on_disconnect")
+    MAX = _R.is_max
+    pe = Sym(normalise(repo, oe, _want_helper), repo=repo).paths()
+    bad, good = table_check(pe, [MAX], lambda v: "raise RequestEntityTooLarge" if v[MAX] else "return", _hook_outcome, lambda v: f"is_max={v[MAX]}")
+    ctx.ob("R9.5", "on_exhausted raises RequestEntityTooLarge iff the limit is a maximum", not bad and len(good) == 2, "; ".join(x for b in bad.values() for x in b) or f"all {len(pe)} paths agree with the table over {{self._limit_is_max}}", oe, oe.node, "on_exhausted")
+    if len(od.params) < 2:
+        raise AnalysisError("on_disconnect: no error parameter")
+    ERRN = f"{od.params[1]} is None"
+    pd = Sym(normalise(repo, od, _want_helper), repo=repo).paths()
+    bad, good = table_check(pd, [MAX, ERRN], lambda v: "return" if (v[MAX] and v[ERRN]) else "raise ClientDisconnected", _hook_outcome, lambda v: f"is_max={v[MAX]}, error is None={v[ERRN]}")
+    ctx.ob("R9.5", "on_disconnect raises ClientDisconnected unless (limit is a maximum and no error)", not bad and len(good) == 2, "; ".join(x for b in bad.values() for x in b) or f"all {len(pd)} paths agree with the table over {{is_max, error is None}}", od, od.node, "on_disconnect")
 
     # ---------------- R9.7 readall loop -----------------------------------
-    ra = ls.methods["readall"]
-    cra = cfg_of(ra)
-    loops = [n for n in walk_no_nested(ra.node) if isinstance(n, ast.While)]
-    if len(loops) != 1:
-        raise AnalysisError("readall: expected one while loop")
-    lp = loops[0]
-    cond_ok = canon(lp.test) == (atom("self.is_exhausted")[0], False)
-    breaks = [n for n in walk_no_nested(lp) if isinstance(n, ast.Break)]
-    reads = [s for s in walk_no_nested(lp) if isinstance(s, ast.Assign) and isinstance(s.value, ast.Call) and isinstance(s.value.func, ast.Attribute) and s.value.func.attr == "read" and astq.is_name(s.value.func.value, "self")]
-    if len(reads) == 1 and isinstance(reads[0].targets[0], ast.Name):
-        dname = reads[0].targets[0].id
-        inner = {id(x) for s in lp.body for x in ast.walk(s)}
-        inner_keys = {canon(t_.ast)[0] for t_ in cra.tests() if t_.kind == "test" and id(t_.ast) in inner}
-
-        def inner_guards(n: Node) -> set:
-            return {(k, v) for (k, v) in guard_set(cra, n) if k in inner_keys}
-
-        empty = [{(dname, False)}, {(f"0 == len({dname})", True)}, {(f"len({dname}) == 0", True)}]
-        nonempty = [set(), {(dname, True)}, {(f"0 == len({dname})", False)}]
-        bad_exit = [(b, inner_guards(cra.node_of(b))) for b in breaks if inner_guards(cra.node_of(b)) not in empty]
-        rets_in = [n for n in walk_no_nested(lp) if isinstance(n, (ast.Return, ast.Raise))]
-        ok = cond_ok and not bad_exit and not rets_in
-        fact = f"loop while `{norm(lp.test)}`; {len(breaks)} break(s), each only under an empty `{dname}`: {not bad_exit}{' ' + str([sorted(g) for _, g in bad_exit]) if bad_exit else ''}; returns/raises inside loop: {len(rets_in)}"
-        sites = [c for c in astq.method_calls(lp, "extend") + astq.method_calls(lp, "append") if c.args and norm(c.args[0]) == dname] + [s for s in walk_no_nested(lp) if isinstance(s, ast.AugAssign) and norm(s.value) == dname]
-        acc_ok = any(inner_guards(cra.node_of(x)) in nonempty for x in sites if cra.node_of(x) is not None)
-        ctx.ob("R9.7", "every non-empty read is appended to the result", acc_ok, f"accumulation of `{dname}` inside the loop guarded by nothing but its non-emptiness: {acc_ok}", ra, lp, "readall accumulates")
-    else:
-        ok = False
-        fact = "no single `<name> = self.read(n)` in the loop"
-    ctx.ob("R9.7", "readall loop exits only on exhaustion or an empty read", ok, fact, ra, lp, "readall loop exits")
+    _readall(ctx, ls)
 
     # ---------------- R9.6 -------------------------------------------
     _input_stream(ctx)
+
+
+def _hook_outcome(p: Path) -> str:
+    if p.outcome == "raise":
+        return f"raise {p.raised()}"
+    if p.outcome in ("return", "fall"):
+        return "return"
+    return p.outcome
+
+
+def _length_exact(tg: ast.Subscript, src: ast.AST) -> tuple[bool, str]:
+    sl = tg.slice
+    if not isinstance(sl, ast.Slice) or sl.step is not None or sl.upper is None:
+        return False, f"`{norm(tg)}`: not a bounded slice"
+    lo = lin(sl.lower) if sl.lower is not None else Lin()
+    hi = lin(sl.upper)
+    if lo is None or hi is None:
+        return False, f"`{norm(tg)}`: bounds are not integer expressions"
+    n = hi - lo
+    s = _strip_cast(src)
+    while isinstance(s, ast.Call) and dotted(s.func) in ("bytes", "memoryview") and len(s.args) == 1:
+        s = s.args[0]
+    if isinstance(s, ast.Subscript) and isinstance(s.slice, ast.Slice) and s.slice.step is None and s.slice.upper is not None:
+        slo = lin(s.slice.lower) if s.slice.lower is not None else Lin()
+        shi = lin(s.slice.upper)
+        if slo is not None and shi is not None and (shi - slo).key() == n.key():
+            return True, f"target width `{n.key()}` = width of the source slice `{norm(s)}`"
+        return False, f"target width `{n.key()}` but source slice `{norm(s)}`"
+    if isinstance(s, ast.Call) and dotted(s.func) == "bytearray" and len(s.args) == 1 and isinstance(s.args[0], (ast.BinOp, ast.Constant)) and lin(s.args[0]) is not None:
+        m = lin(s.args[0])
+        ok = m is not None and m.key() == n.key()
+        return ok, f"target width `{n.key()}`, source is a fresh buffer of `{m.key() if m else '?'}` bytes"
+    want = Lin({f"len({norm(s)})": 1})
+    ok = n.key() == want.key()
+    return ok, f"target width `{n.key()}`, source `{norm(s)}` of length `{want.key()}`"
+
+
+def _readall(ctx: Ctx, ls: ClassInfo) -> None:
+    repo = ctx.repo
+    ra = ls.methods["readall"]
+    nf = normalise(repo, ra, _want_helper)
+    sym = Sym(nf, repo=repo)
+    loops = [n for n in walk_no_nested(nf.node) if isinstance(n, (ast.While, ast.For)) and getattr(n, "_inlined_from", None) is None]
+    generator = None
+    if not loops:
+        # the loop may live in a generator of the class whose items readall joins: `return b"".join(self._iter_chunks())`
+        sn = nf.selfname or "self"
+        for c in astq.calls(nf.node):
+            if isinstance(c.func, ast.Attribute) and isinstance(c.func.value, ast.Name) and c.func.value.id == sn and c.func.attr in ls.methods:
+                g = ls.methods[c.func.attr]
+                if any(isinstance(x, (ast.Yield, ast.YieldFrom)) for x in walk_no_nested(g.node)):
+                    generator = (g, c)
+        if generator is None:
+            raise AnalysisError("readall: no read loop")
+        outer = sym.paths()
+        consumed = [p for p in outer if p.outcome == "return" and p.value is not None and any(isinstance(x, ast.Call) and isinstance(x.func, ast.Attribute) and x.func.attr == generator[1].func.attr for x in ast.walk(p.end.ast.value))]  # type: ignore[union-attr]
+        bare = [p for p in outer if p.outcome in ("return", "fall") and not any(p is q for q in consumed) and not implies_ge0(p.cset(), Lin({_R.pos: 1, _R.limit: -1}))]
+        if not consumed or bare:
+            raise AnalysisError("readall: how the items of the chunk generator become the result is not understood")
+        ra_gen = generator[0]
+        ctx.saw(ra_gen)
+        nf = normalise(repo, ra_gen, _want_helper)
+        sym = Sym(nf, repo=repo)
+        loops = [n for n in walk_no_nested(nf.node) if isinstance(n, (ast.While, ast.For)) and getattr(n, "_inlined_from", None) is None]
+        if not loops:
+            raise AnalysisError("readall: no read loop")
+    paths = sym.paths()
+
+    def reads(p: Path) -> list[Ev]:
+        return [e for e in p.events if e.k is not None and (_self_calls(e, "read") or _self_calls(e, "readinto") or _self_calls(e, "read1"))]
+
+    def exhausted_known(p: Path, after: Ev | None) -> bool:
+        """an exhaustion test `_pos >= limit` was taken as true, on the attribute values current after the last read."""
+        pos_term = vername(_R.pos, after.k) if after is not None else _R.pos
+        start = after.ncond if after is not None else 0
+        conds = {(k, v) for k, v, _ in p.conds[start:]} if after is not None else p.cset()
+        lim_terms = [_R.limit] + ([vername(_R.limit, after.k)] if after is not None else [])
+        return any(implies_ge0(conds, Lin({pos_term: 1, lt: -1})) for lt in lim_terms)
+
+    def accumulated(p: Path, r: Ev) -> str | None:
+        symtxt = symname(r.k)
+        for e in p.events[p.events.index(r) + 1:]:
+            if e.kind == "yield" and norm(_unwrap_bytes(e.call)) == symtxt:
+                return "<yield>"
+            if e.kind == "call" and isinstance(e.raw, ast.Call) and isinstance(e.raw.func, ast.Attribute) and e.raw.func.attr in ("extend", "append", "write") and e.call.args and norm(_unwrap_bytes(e.call.args[0])) == symtxt:  # type: ignore[union-attr]
+                b = e.raw.func.value
+                return b.id if isinstance(b, ast.Name) else norm(b)
+            if e.kind == "aug" and isinstance(e.call, ast.AugAssign) and isinstance(e.call.op, ast.Add) and norm(_unwrap_bytes(e.call.value)) == symtxt and isinstance(e.call.target, ast.Name):
+                return e.call.target.id
+        for name, v in p.env.items():
+            if isinstance(v, ast.BinOp) and isinstance(v.op, ast.Add) and norm(_unwrap_bytes(v.right)) == symtxt and not name.startswith("self."):
+                return name
+        return None
+
+    bad_exit, bad_acc, bad_loop = [], [], []
+    n_read_paths = 0
+    accs: set[str] = set()
+    rets_after_read: list[Path] = []
+    for p in paths:
+        rs = reads(p)
+        if not rs:
+            if p.outcome in ("return", "fall") and not exhausted_known(p, None):
+                bad_exit.append(f"{p.describe()}: returns without a read although exhaustion is not known")
+            elif p.outcome == "loop":
+                bad_loop.append(f"{p.describe()}: repeats without reading")
+            continue
+        n_read_paths += 1
+        r = rs[-1]
+        tv = truth_of(dict(p.cset()), symname(r.k))
+        acc = accumulated(p, r)
+        if acc:
+            accs.add(acc)
+        if p.outcome == "loop" or len(rs) > 1:
+            if tv is False:
+                bad_loop.append(f"{p.describe()}: reads again after an empty read (endless on a finished stream)")
+            if acc is None:
+                bad_acc.append(f"{p.describe()}: a read result that may be non-empty is not appended before the next read")
+        elif p.outcome in ("return", "fall"):
+            rets_after_read.append(p)
+            if tv is False:
+                continue
+            if not exhausted_known(p, r):
+                bad_exit.append(f"{p.describe()}: leaves the loop after a read that is not known to be empty, without an exhaustion test")
+            if acc is None:
+                bad_acc.append(f"{p.describe()}: a read result that may be non-empty is dropped")
+        else:
+            bad_exit.append(f"{p.describe()}: ends with {p.outcome} inside the read loop")
+    # every read happens under a test that says the limit is not reached yet, on the position current at that moment -
+    # in the first round (paths from the entry) and in any later round (paths that start at the loop head knowing nothing)
+    def guarded_reads(ps: list[Path]) -> list[str]:
+        bad = []
+        for p in ps:
+            for r in reads(p):
+                before = [e for e in p.events[: p.events.index(r)] if e.k is not None and isinstance(e.call, ast.Call) and isinstance(e.call.func, ast.Attribute) and isinstance(e.call.func.value, ast.Name) and e.call.func.value.id == "self" and _R.attr(_R.pos) in (sym.writes.get(e.call.func.attr) if sym.writes.get(e.call.func.attr) is not None else sym.writes.get("*", set()))]
+                pos_term = vername(_R.pos, before[-1].k) if before else _R.pos
+                conds = p.cset(r.ncond)
+                if not any(implies_ge0(conds, Lin({lt: 1, pos_term: -1}).shift(-1)) for lt in ([_R.limit] + ([vername(_R.limit, before[-1].k)] if before else []))):
+                    bad.append(f"{p.describe()[:200]}: `{norm(r.raw)}` happens without a test that the limit is not reached")
+        return bad
+
+    loop_heads = [h for h in nf.cfg.nodes if h.kind == "loop" or (h.kind == "join" and isinstance(h.ast, ast.While) and getattr(h.ast, "_inlined_from", None) is None)]
+    later = [p for h in loop_heads for p in sym.paths(start=h, stop=lambda n, h=h: n is h)]
+    bad_exit += sorted(set(guarded_reads(paths) + guarded_reads(later)))[:3]
+    result_ok = (generator is not None and accs == {"<yield>"}) or bool(accs) and all(p.end is not None and isinstance(p.end.ast, ast.Return) and p.end.ast.value is not None and (astq.names_in(p.end.ast.value) & accs) for p in rets_after_read)
+    lp = loops[0]
+    ctx.ob("R9.7", "every non-empty read is appended to the result", not bad_acc and result_ok, "; ".join(bad_acc[:3]) or f"accumulator(s) {sorted(accs)}; every return after the loop is built from it: {result_ok}", ra, lp, "readall accumulates")
+    ctx.ob("R9.7", "readall loop exits only on exhaustion or an empty read", not bad_exit and not bad_loop and n_read_paths >= 2, "; ".join((bad_exit + bad_loop)[:3]) or f"{n_read_paths} path(s) through a read: each either repeats with the data appended or leaves on an empty read / a true exhaustion test", ra, lp, "readall loop exits")
+
+
+def _unwrap_bytes(e: ast.AST) -> ast.AST:
+    while isinstance(e, ast.Call) and dotted(e.func) in ("bytes", "memoryview") and len(e.args) == 1:
+        e = e.args[0]
+    return e
 
 
 def input_stream_rule(ctx: Ctx, rule: str) -> None:
@@ -312,126 +689,245 @@ def input_stream_rule(ctx: Ctx, rule: str) -> None:
     _input_stream(ctx, rule)
 
 
-def _calls(n: Node, method: str) -> bool:
-    return n.ast is not None and n.kind in ("stmt", "test") and any(isinstance(c.func, ast.Attribute) and c.func.attr == method for c in astq.calls(n.ast))
-
-
-def _touches_under(n: Node) -> bool:
-    return n.ast is not None and n.kind in ("stmt", "test") and any(isinstance(c.func, ast.Attribute) and astq.is_self_attr(c.func.value, "_stream") for c in astq.calls(n.ast))
-
-
-def _raised(o) -> str | None:
-    e = o.value
-    if isinstance(e, ast.Call):
-        e = e.func
-    d = dotted(e) if e is not None else None
-    return d.rsplit(".", 1)[-1] if d else None
-
-
-def _desc(o) -> str:
-    if o.kind == "raise":
-        return f"raise {_raised(o)}"
-    if o.kind == "return":
-        return f"return {norm(o.value) if o.value is not None else None}"
-    return o.kind
-
-
-def _classify_stream(v: ast.AST | None) -> str:
+def _classify_stream(v: ast.AST | None, stream: str, CL: str, MAXP: str) -> str:
     v = _strip_cast(v)
     if v is None:
         return "None"
-    if isinstance(v, ast.Name):
-        return f"name:{v.id}"
-    if isinstance(v, ast.Call) and (dotted(v.func) or "").endswith("BytesIO") and not v.args:
+    if norm(_strip_cast(v)) == stream:
+        return "stream"
+    if isinstance(v, ast.Call) and (dotted(v.func) or "").endswith("BytesIO") and not v.args and not v.keywords:
         return "BytesIO()"
     if isinstance(v, ast.Call) and (dotted(v.func) or "").endswith("LimitedStream"):
-        src = norm(v.args[0]) if v.args else "?"
-        lim = norm(v.args[1]) if len(v.args) > 1 else norm(astq.kwarg(v, "limit") or ast.Constant(None))
-        ismax = astq.arg_or_kw(v, 2, "is_max")
-        return f"LimitedStream({src}, {lim}, is_max={norm(ismax) if ismax is not None else 'False'})"
-    return f"other:{norm(v)[:40]}"
+        a0 = astq.arg_or_kw(v, 0, "stream")
+        a1 = astq.arg_or_kw(v, 1, "limit")
+        a2 = astq.arg_or_kw(v, 2, "is_max")
+        src = "stream" if a0 is not None and norm(_strip_cast(a0)) == stream else (norm(a0) if a0 is not None else "?")
+        lim = {CL: "content_length", MAXP: "max_content_length"}.get(norm(a1) if a1 is not None else "?", norm(a1) if a1 is not None else "?")
+        return f"LimitedStream({src}, {lim}, is_max={norm(a2) if a2 is not None else 'False'})"
+    return f"other:{norm(v)[:60]}"
 
 
 def _input_stream(ctx: Ctx, RULE: str = "R9.6") -> None:
     repo = ctx.repo
     gi = repo.func("wsgi.get_input_stream")
     ctx.saw(gi)
-    cfg = cfg_of(gi)
-    TERM = atom("'wsgi.input_terminated' in environ")[0]
-    MAXN = atom("max_content_length is None")[0]
-    CLN = atom("content_length is None")[0]
-    SAFE = atom("safe_fallback")[0]
-    GT = atom("content_length > max_content_length")[0]
+    if len(gi.params) < 3:
+        raise AnalysisError("get_input_stream: expected (environ, safe_fallback, max_content_length)")
+    ENV, SAFEP, MAXP = gi.params[0], gi.params[1], gi.params[2]
+    nf = normalise(repo, gi, lambda h: h.name != "get_content_length")
+    sym = Sym(nf, repo=repo)
+    paths = sym.paths()
+    # the declared length: whatever spelling of the call of get_content_length the paths evaluate
+    cls_ = sorted({norm(e.call) for p in paths for e in p.events if e.kind == "call" and isinstance(e.raw, ast.Call) and (dotted(e.raw.func) or "").rsplit(".", 1)[-1] == "get_content_length"})
+    if len(cls_) > 1:
+        raise AnalysisError(f"get_input_stream: several spellings of the declared length {cls_}")
+    CL = cls_[0] if cls_ else f"get_content_length({ENV})"
+    STREAM = f"{ENV}['wsgi.input']"
+    TERM = f"'wsgi.input_terminated' in {ENV}"
+    MAXN = f"{MAXP} is None"
+    CLN = f"{CL} is None"
+    SAFE = SAFEP
+    gt = canon_atom(ast.parse(f"{CL} > {MAXP}", mode="eval").body)
+    assert not isinstance(gt, bool)
+    GT, GT_POL = gt
     known = [TERM, MAXN, CLN, SAFE, GT]
-    present = test_keys(cfg)
-    unknown = [k for k in present if k not in known]
-    missing = [k for k in known if k not in present]
-    ctx.ob(RULE, "get_input_stream decides on the documented atoms only", not unknown and not missing, f"atoms found {present}; unknown {unknown}; missing {missing}", gi, gi.node, "input stream atoms")
 
     def spec(v) -> str:
-        if not v[CLN] and not v[MAXN] and v[GT]:
+        if not v[CLN] and not v[MAXN] and (v[GT] == GT_POL):
             return "raise RequestEntityTooLarge"
         if v[TERM]:
-            return "name:stream" if v[MAXN] else "LimitedStream(stream, max_content_length, is_max=True)"
+            return "stream" if v[MAXN] else "LimitedStream(stream, max_content_length, is_max=True)"
         if v[CLN]:
-            return "BytesIO()" if v[SAFE] else "name:stream"
+            return "BytesIO()" if v[SAFE] else "stream"
         return "LimitedStream(stream, content_length, is_max=False)"
 
-    by_expected: dict[str, list[str]] = {}
-    rows = decision_table(cfg, known)
-    for v, outs in rows:
-        want = spec(v)
-        got = sorted({("raise " + (_raised(o) or "?")) if o.kind == "raise" else _classify_stream(o.value) if o.kind == "return" else o.kind for o in outs})
-        by_expected.setdefault(want, [])
-        if got != [want]:
-            by_expected[want].append(f"[terminated={v[TERM]}, max is None={v[MAXN]}, length is None={v[CLN]}, safe_fallback={v[SAFE]}, length>max={v[GT]}] -> {got}")
-    ctx.floor(RULE, "decision rows of get_input_stream", len(rows), 32)
-    for want in ["raise RequestEntityTooLarge", "LimitedStream(stream, max_content_length, is_max=True)", "name:stream", "BytesIO()", "LimitedStream(stream, content_length, is_max=False)"]:
-        bad = by_expected.get(want)
-        if bad is None:
-            bad = ["no row expects this outcome"]
-        ctx.ob(RULE, f"input stream table: rows expecting `{want.replace('name:', '')}`", not bad, ("; ".join(bad[:4]) + (f" (+{len(bad) - 4} more rows)" if len(bad) > 4 else "")) if bad else "all rows agree", gi, gi.node, f"input stream table {want}")
-    d1 = [norm(v) for _, v in astq.assigns_to(gi.node, "content_length") if v is not None]
-    ctx.ob(RULE, "content_length comes from get_content_length(environ)", d1 == ["get_content_length(environ)"], f"{d1}", gi, gi.node, "content_length source")
-    d2 = [norm(v) for _, v in astq.assigns_to(gi.node, "stream") if v is not None]
-    ctx.ob(RULE, "stream is environ['wsgi.input']", len(d2) == 1 and "environ['wsgi.input']" in d2[0], f"{d2}", gi, gi.node, "stream source")
+    def outcome(p: Path) -> str:
+        if p.outcome == "raise":
+            return f"raise {p.raised() or '?'}"
+        if p.outcome == "return":
+            return _classify_stream(p.value, STREAM, CL, MAXP)
+        return p.outcome
 
-    # get_content_length (sansio) is total
+    def label(v) -> str:
+        return f"terminated={v[TERM]}, max is None={v[MAXN]}, length is None={v[CLN]}, safe_fallback={v[SAFE]}, length>max={v[GT] == GT_POL}"
+
+    present = []
+    for p in paths:
+        for k, _, _ in p.conds:
+            if k not in present:
+                present.append(k)
+    unknown = [k for k in present if k not in known]
+    missing = [k for k in known if k not in present]
+    bad, good = table_check(paths, known, spec, outcome, label)
+    # an atom outside the documented five is harmless exactly when no outcome depends on it: then the table still agrees
+    ctx.ob(RULE, "get_input_stream decides on the documented atoms", not missing, f"atoms found {present}; beyond the documented five {unknown}; missing {missing}", gi, gi.node, "input stream atoms")
+    ctx.floor(RULE, "paths of get_input_stream", len(paths), 5)
+    for want in ["raise RequestEntityTooLarge", "LimitedStream(stream, max_content_length, is_max=True)", "stream", "BytesIO()", "LimitedStream(stream, content_length, is_max=False)"]:
+        b = list(bad.get(want, []))
+        if not b and not good.get(want):
+            b = ["no path produces this outcome"]
+        key_want = want if want != "stream" else "name:stream"
+        ctx.ob(RULE, f"input stream table: rows expecting `{want}`", not b, ("; ".join(b[:4]) + (f" (+{len(b) - 4} more rows)" if len(b) > 4 else "")) if b else "all paths agree", gi, gi.node, f"input stream table {key_want}")
+    uses_cl = any(CL in k for k in present)
+    ctx.ob(RULE, "content_length comes from get_content_length(environ)", uses_cl, f"conditions on `{CL}`: {[k for k in present if CL in k]}", gi, gi.node, "content_length source")
+    rets = [outcome(p) for p in paths if p.outcome == "return"]
+    ctx.ob(RULE, "stream is environ['wsgi.input']", bool(rets) and not any(r.startswith("other:") or "(stream" not in r and r not in ("stream", "BytesIO()") for r in rets), f"returned streams: {sorted(set(rets))}", gi, gi.node, "stream source")
+
+    _content_length(ctx, RULE)
+
+
+def _content_length(ctx: Ctx, RULE: str) -> None:
+    repo = ctx.repo
     gl = repo.func("sansio.utils.get_content_length")
     ctx.saw(gl)
-    c2 = cfg_of(gl)
-    CH = atom("http_transfer_encoding == 'chunked'")[0]
-    HN = atom("http_content_length is None")[0]
-    bad = []
-    for v, outs in decision_table(c2, [CH, HN]):
-        vals = sorted({norm(o.value) if o.kind == "return" and o.value is not None else o.kind for o in outs})
-        if v[CH] or v[HN]:
-            if vals != ["None"]:
-                bad.append(f"chunked={v[CH]}, absent={v[HN]} -> {vals}")
-        elif "None" in vals or any(x in ("fall", "raise") for x in vals):
-            bad.append(f"chunked={v[CH]}, absent={v[HN]} -> {vals}")
-    pis = [c for c in astq.calls(gl.node) if (dotted(c.func) or "").endswith("_plain_int")]
-    h_ok = False
-    for c in pis:
-        tr = astq.enclosing(c, (ast.Try,))
-        h_ok = isinstance(tr, ast.Try) and any((dotted(h.type) or "") in ("ValueError", "Exception") and any(isinstance(s, ast.Return) and norm(s.value) == "0" for s in h.body) for h in tr.handlers if h.type is not None)
-    clamp = any(dotted(c.func) == "max" and any(norm(a) == "0" for a in c.args) for c in astq.calls(gl.node))
-    ctx.ob(RULE, "get_content_length: chunked or absent -> None; otherwise max(0, plain int); ValueError -> 0", not bad and len(pis) == 1 and h_ok and clamp, f"table mismatches {bad}; _plain_int in try with ValueError -> 0: {h_ok}; clamped at 0: {clamp}", gl, gl.node, "get_content_length table")
+    if len(gl.params) < 2:
+        raise AnalysisError("sansio get_content_length: expected (http_content_length, http_transfer_encoding)")
+    HCL, HTE = gl.params[0], gl.params[1]
+    nf = normalise(repo, gl)
+    sym = Sym(nf, repo=repo)
+    _HANDLER_SCOPE.update(cls=None, module=gl.module)
+    V = f"_plain_int({HCL})"
+
+    def evaluates_v(n) -> bool:
+        return n.ast is not None and n.kind in ("stmt", "test") and any((dotted(c.func) or "").rsplit(".", 1)[-1] == "_plain_int" for c in astq.calls(n.ast))
+
+    paths = sym.paths(exc=evaluates_v)
+    ch = canon_atom(ast.parse(f"{HTE} == 'chunked'", mode="eval").body)
+    assert not isinstance(ch, bool)
+    CH, CH_POL = ch
+    HN = f"{HCL} is None"
+    SAMPLES = (-7, -1, 0, 1, 9)
+    bad: list[str] = []
+    n_none = n_val = n_exc = 0
+    parsed_sites = {id(e.raw) for p in paths for e in p.events if e.kind == "call" and norm(e.call) == V}
+    for p in paths:
+        hops = _exc_hops(p)
+        chv, hnv = p.val(CH), p.val(HN)
+        streaming = (chv is not None and chv == CH_POL) or hnv is True
+        decided_plain = chv is not None and chv != CH_POL and hnv is False
+        got = norm(p.value) if p.outcome == "return" and p.value is not None else ("None" if p.outcome in ("fall",) or (p.outcome == "return" and p.value is None) else p.outcome)
+        if hops:
+            rn, h = hops[0]
+            names = _handler_names(h)
+            if not (set(names) & {"ValueError", "Exception", "BaseException"}):
+                continue  # not the handler a ValueError would reach
+            n_exc += 1
+            r0 = ieval(p.value, {}) if p.outcome == "return" and p.value is not None else None
+            if not (r0 == 0 and r0 is not False):
+                bad.append(f"non-numeric length: handler {names} -> {got} (expected 0)")
+            continue
+        if streaming:
+            n_none += 1
+            if got != "None":
+                bad.append(f"chunked={chv == CH_POL if chv is not None else '?'}, absent={hnv} -> {got} (expected None)")
+            continue
+        if not decided_plain:
+            # a path that returns without having decided both atoms: it must be right for every completion
+            bad.append(f"{p.describe()}: returns without deciding chunked / absent")
+            continue
+        n_val += 1
+        if p.outcome != "return" or p.value is None:
+            bad.append(f"{p.describe()}: plain length ends with {got}")
+            continue
+        for s in SAMPLES:
+            env = {V: s}
+            feasible = True
+            for k, v, n in p.conds:
+                if V not in k:
+                    continue
+                test = sym_cond_value(k, env)
+                if test is None:
+                    raise AnalysisError(f"get_content_length: condition `{k}` on the parsed length is not understood")
+                if test != v:
+                    feasible = False
+                    break
+            if not feasible:
+                continue
+            r = ieval(p.value, env)
+            if r is None:
+                raise AnalysisError(f"get_content_length: returned expression `{norm(p.value)}` is not understood")
+            if r != max(0, s):
+                bad.append(f"parsed length {s} -> {r} via `{norm(p.value)}` (expected {max(0, s)})")
+    caught = n_exc >= 1
+    if not caught and parsed_sites:
+        bad.append("a ValueError of _plain_int is not caught")
+    ctx.ob(RULE, "get_content_length: chunked or absent -> None; otherwise max(0, plain int); ValueError -> 0", not bad and n_none >= 1 and n_val >= 1 and len(parsed_sites) == 1,
+           "; ".join(sorted(set(bad))[:4]) or f"{n_none} streaming path(s) return None; {n_val} plain path(s) return max(0, n) for n in {SAMPLES}; {n_exc} ValueError path(s) return 0", gl, gl.node, "get_content_length table")
+
     pi = repo.func("_internal._plain_int")
     ctx.saw(pi)
     folder = Folder(repo)
-    fm = [c for c in astq.method_calls(pi.node, "fullmatch")]
+    pp = Sym(normalise(repo, pi), repo=repo).paths()
+    fm_calls = [e for p in pp for e in p.events if e.kind == "call" and isinstance(e.raw, ast.Call) and isinstance(e.raw.func, ast.Attribute) and e.raw.func.attr == "fullmatch"]
     ok = False
     fact = "no fullmatch"
-    if len(fm) == 1:
-        rx = folder.name(pi.module, dotted(fm[0].func.value) or "")  # type: ignore[attr-defined]
+    sites = {id(e.raw): e for e in fm_calls}
+    if len(sites) == 1:
+        e0 = next(iter(sites.values()))
+        rx = folder.name(pi.module, dotted(e0.raw.func.value) or "")  # type: ignore[union-attr]
         if isinstance(rx, RegexConst):
             digits_only = bool(rx.flags & re.A) and all(c in b"-0123456789" for cls in classes_in(rx, 256) for c in cls)
-            raises_ve = any(astq.raised_name(r) == "ValueError" for r in astq.raises_of(pi.node))
-            ok = digits_only and raises_ve
-            fact = f"pattern {rx.pattern!r} flags={rx.flags}: ASCII digits only={digits_only}; raises ValueError on mismatch={raises_ve}"
+            mism, match_ret = [], []
+            for p in pp:
+                ev = next((e for e in p.events if e.raw is e0.raw), None)
+                if ev is None:
+                    continue
+                fmk = norm(ev.call)
+                nomatch = p.val(f"{fmk} is None") is True or p.val(fmk) is False
+                matched = p.val(f"{fmk} is None") is False or p.val(fmk) is True
+                if nomatch:
+                    mism.append(p.raised() == "ValueError")
+                elif matched:
+                    match_ret.append(p.outcome == "return" and isinstance(p.value, ast.Call) and dotted(p.value.func) == "int")
+                else:
+                    mism.append(False)
+            raises_ve = bool(mism) and all(mism)
+            ok = digits_only and raises_ve and bool(match_ret) and all(match_ret)
+            fact = f"pattern {rx.pattern!r} flags={rx.flags}: ASCII digits only={digits_only}; every non-matching path raises ValueError={raises_ve}; matching paths return int(...)={bool(match_ret) and all(match_ret)}"
     ctx.ob(RULE, "_plain_int accepts only ASCII digits (optional sign) and raises ValueError otherwise", ok, fact, pi, pi.node, "_plain_int pattern")
+
     wg = repo.func("wsgi.get_content_length")
     ctx.saw(wg)
-    s = norm(wg.node)
-    ctx.ob(RULE, "wsgi.get_content_length reads CONTENT_LENGTH and HTTP_TRANSFER_ENCODING", "environ.get('CONTENT_LENGTH')" in s and "environ.get('HTTP_TRANSFER_ENCODING')" in s, "", wg, wg.node, "environ keys")
+    env = wg.params[0] if wg.params else "environ"
+    pw = [p for p in Sym(normalise(repo, wg, lambda h: False), repo=repo).paths() if p.outcome == "return"]
+    good_w = bool(pw)
+    seen_w = []
+    absent_keys = {(f"{env}.get('CONTENT_LENGTH') is None", True), (f"{env}.get('CONTENT_LENGTH', None) is None", True), (f"'CONTENT_LENGTH' in {env}", False)}
+    for p in pw:
+        v = p.value
+        got = {}
+        if isinstance(v, ast.Constant) and v.value is None and (p.cset() & absent_keys):
+            seen_w.append({"<header absent>": "None"})  # what the sansio function answers for an absent header
+            continue
+        if isinstance(v, ast.Call) and (dotted(v.func) or "").rsplit(".", 1)[-1] == "get_content_length":
+            a = astq.arg_or_kw(v, 0, HCL)
+            b = astq.arg_or_kw(v, 1, HTE)
+            got = {HCL: norm(a) if a is not None else None, HTE: norm(b) if b is not None else None}
+        seen_w.append(got)
+        if any("\u03a3" in str(x) for x in got.values()):
+            raise AnalysisError(f"wsgi.get_content_length: how the header values reach the sansio function is not understood ({got})")
+        if not (got.get(HCL) in (f"{env}.get('CONTENT_LENGTH')", f"{env}.get('CONTENT_LENGTH', None)") and got.get(HTE) in (f"{env}.get('HTTP_TRANSFER_ENCODING')", f"{env}.get('HTTP_TRANSFER_ENCODING', None)")):
+            good_w = False
+    ctx.ob(RULE, "wsgi.get_content_length reads CONTENT_LENGTH and HTTP_TRANSFER_ENCODING", good_w, f"arguments of the sansio call: {seen_w}", wg, wg.node, "environ keys")
+
+
+def sym_cond_value(key: str, env: dict[str, int]) -> bool | None:
+    """truth value of a canonical condition key under an assignment of its integer terms."""
+    from ._c09_helpers import _LIN_OF_KEY
+
+    f = _LIN_OF_KEY.get(key)
+    if f is not None:
+        tot = f.const
+        for tm, c in f.terms.items():
+            if tm not in env:
+                return None
+            tot += c * env[tm]
+        return tot >= 0 if key.startswith("GE0: ") else tot == 0
+    try:
+        e = ast.parse(key, mode="eval").body
+    except SyntaxError:
+        return None
+    r = ieval(e, env)
+    if r is None:
+        return None
+    return bool(r)
